@@ -44,13 +44,45 @@ roles:
           load: cB
           critical: false
 `
+const wf2 = `name: probe2
+defaults:
+  deploy_timeout: 5s
+constraints:
+  - attribute: zone
+    value: z1
+  - attribute: zone
+    value: z2
+roles:
+  - name: "t1"
+    constraints:
+      - attribute: zone
+        value: z3
+    task:
+      load: cC
+      critical: false
+`
+const cC = `name: cC
+control:
+  mode: direct
+wants:
+  cpu: 0.1
+  memory: 64
+bind:
+  - name: out
+    type: push
+    addressing: tcp
+command:
+  env: []
+  shell: true
+  value: "sleep 1000"
+`
 const cA = `name: cA
 control:
   mode: basic
 wants:
   cpu: 0.6
   memory: 64
-  ports: "9000-9002,9500"
+  ports: "9000-9002,9050"
 constraints:
   - attribute: rack
     value: r0
@@ -83,8 +115,8 @@ command:
 func main() {
 	s, err := simcore.New(simcore.Options{
 		WorkDir:     "/verif/build/sim/c05probe",
-		Workflows:   map[string]string{"probe": wf},
-		TaskClasses: map[string]string{"cA": cA, "cB": cB},
+		Workflows:   map[string]string{"probe": wf, "probe2": wf2},
+		TaskClasses: map[string]string{"cA": cA, "cB": cB, "cC": cC},
 		Agents:      nil,
 		Quiet:       os.Getenv("SIM_VERBOSE") == "", Settings: map[string]interface{}{"veryVerbose": true},
 	})
@@ -102,14 +134,18 @@ func main() {
 		func() gera.Map[string, string] { return gera.MakeMap[string, string]() },
 		func(ev event.Event) {},
 	)
-	w, err := workflow.Load("probe", pa, s.Taskman, map[string]string{}, map[string]string{})
+	wfn := "probe"; if len(os.Args) > 1 { wfn = os.Args[1] }
+	w, err := workflow.Load(wfn, pa, s.Taskman, map[string]string{}, map[string]string{})
 	fmt.Println("load:", err, time.Since(t0))
 	ds := w.GenerateTaskDescriptors()
 	cm := s.Taskman.BuildDescriptorConstraints(ds)
 	for _, d := range ds {
 		fmt.Println("desc", d.TaskClassName, d.RoleConstraints, "merged", cm[d], "bind", d.RoleBind)
 	}
-	s.Opts.Agents = []simcore.Agent{{Hostname: "host1", CPUs: 1.0, Mem: 4096, Ports: [][2]uint64{{9000, 9100}, {30000, 30100}},
+	ports := [][2]uint64{{9000, 9100}, {30000, 30100}}
+	if len(os.Args) > 2 && os.Args[2] == "exhaust" { ports = [][2]uint64{{9000, 9000}} }
+	if len(os.Args) > 2 && os.Args[2] == "nocontrol" { ports = [][2]uint64{{9000, 9100}} }
+	s.Opts.Agents = []simcore.Agent{{Hostname: "host1", CPUs: 1.0, Mem: 4096, Ports: ports,
 		Attributes: map[string]string{"machine_id": "host1", "zone": "z2", "rack": "r1", "kind": "flp,epn"}}}
 	n0 := len(s.CallsSnapshot())
 	t1 := time.Now()
